@@ -175,26 +175,29 @@ Section Full.
   Qed.
 
   (* ---------- forward scan ---------- *)
+  Lemma gez_div_cancel a b : gez_div exact (a * f) (b * f) = gez_div exact a b.
+  Proof. unfold gez_div. rewrite (a_div_cancel f Hf). reflexivity. Qed.
+
   Lemma fwd_A2 last dflt A2 :
     forall adj1 adj0 s,
-    (forall x, In x A2 -> adj_of (t_af x) adj1 = adj_of (t_af x) adj0 / f) ->
+    (forall x, In x A2 -> adj_of (t_af x) adj1 = adj_of (t_af x) adj0 * f) ->
     fwd_scan exact last dflt (map (scale_tx f) A2) adj1 s = fwd_scan exact last dflt A2 adj0 s.
   Proof.
     induction A2 as [|x A2 IH]; intros adj1 adj0 s Hr; cbn [map fwd_scan]; [reflexivity|].
     cbn [scale_tx t_sd t_af t_act]. destruct (Z.ltb last (t_sd x)); [reflexivity|].
     assert (Hx := Hr x (or_introl eq_refl)).
-    assert (Hr' : forall y, In y A2 -> adj_of (t_af y) adj1 = adj_of (t_af y) adj0 / f)
+    assert (Hr' : forall y, In y A2 -> adj_of (t_af y) adj1 = adj_of (t_af y) adj0 * f)
       by (intros y Hy; apply Hr; right; exact Hy).
     destruct (t_act x) as [sh aps com rate crate | sh aps com rate crate sp | aps rate | sh aps | post pre io];
       cbn [scale_action].
-    - rewrite Hx, (gez_mul_cancel' f Hf).
-      destruct (gez_mul exact sh _) as [b| |]; cbn [bind]; try reflexivity.
+    - rewrite Hx, gez_div_cancel.
+      destruct (gez_div exact sh _) as [b| |]; cbn [bind]; try reflexivity.
       destruct (gez_add exact (sc_eop s) b) as [eop| |]; cbn [bind]; try reflexivity.
       destruct (gez_add exact _ b) as [na| |]; cbn [bind]; try reflexivity.
       destruct (gez_add exact (sc_acq s) b) as [acq| |]; cbn [bind]; try reflexivity.
       apply IH; exact Hr'.
-    - rewrite Hx, (gez_mul_cancel' f Hf).
-      destruct (gez_mul exact sh _) as [b| |]; cbn [bind]; try reflexivity.
+    - rewrite Hx, gez_div_cancel.
+      destruct (gez_div exact sh _) as [b| |]; cbn [bind]; try reflexivity.
       destruct (a_sub exact (sc_eop s) b) as [eop| |]; cbn [bind]; try reflexivity.
       destruct (Qcltb eop 0); [reflexivity|].
       destruct (a_sub exact _ b) as [na| |]; cbn [bind]; try reflexivity.
@@ -203,8 +206,8 @@ Section Full.
     - apply IH; exact Hr'.
     - apply IH; exact Hr'.
     - destruct (split_factor exact post pre) as [fa| |]; cbn [bind]; try reflexivity.
-      rewrite Hx, pos_div_sc.
-      destruct (pos_div exact (adj_of (t_af x) adj0) fa) as [nsa| |]; cbn [bind map_res]; try reflexivity.
+      rewrite Hx, (pos_mul_sc_l f Hf).
+      destruct (pos_mul exact (adj_of (t_af x) adj0) fa) as [nsa| |]; cbn [bind map_res]; try reflexivity.
       apply IH. intros y Hy. rewrite !adj_of_aupdate.
       destruct (N.eqb _ _); [reflexivity | apply Hr'; exact Hy].
   Qed.
@@ -214,7 +217,7 @@ Section Full.
     forall S adj1 adj0 s, Forall fsplit S -> NoDup (ids_of S) -> adj_pos adj1 ->
     (forall x, In x A2 ->
        (In (af_id (t_af x)) (ids_of S) /\ adj_of (t_af x) adj1 = adj_of (t_af x) adj0) \/
-       (~ In (af_id (t_af x)) (ids_of S) /\ adj_of (t_af x) adj1 = adj_of (t_af x) adj0 / f)) ->
+       (~ In (af_id (t_af x)) (ids_of S) /\ adj_of (t_af x) adj1 = adj_of (t_af x) adj0 * f)) ->
     fwd_scan exact last dflt (S ++ map (scale_tx f) A2) adj1 s = fwd_scan exact last dflt A2 adj0 s.
   Proof.
     intros Hlast. induction S as [|x0 S IH]; intros adj1 adj0 s HS Hnd Hpos Hr; cbn [app].
@@ -224,9 +227,9 @@ Section Full.
       cbn [fwd_scan]. rewrite Esd.
       assert (El : Z.ltb last dS = false) by (apply Z.ltb_ge; exact Hlast). rewrite El, Ea.
       rewrite (fsplit_factor _ _ Hpr Ef). cbn [bind].
-      rewrite (pos_div_okf _ (adj_of_pos (t_af x0) adj1 Hpos)). cbn [bind].
+      rewrite (pos_mul_ok _ _ (adj_of_pos (t_af x0) adj1 Hpos) Hf). cbn [bind].
       apply IH; [exact HS | exact Hnd | |].
-      + apply adj_pos_update; [exact Hpos | apply Qcdiv_pos; [apply adj_of_pos; exact Hpos | exact Hf]].
+      + apply adj_pos_update; [exact Hpos | apply Qcmul_pos; [apply adj_of_pos; exact Hpos | exact Hf]].
       + intros x Hx. rewrite adj_of_aupdate.
         destruct (N.eqb_spec (af_id (t_af x)) (af_id (t_af x0))) as [e|n].
         * right. split; [rewrite e; exact Hni|].
@@ -257,12 +260,12 @@ Section Full.
           cbn [fwd_scan]. assert (El2 : Z.ltb last (t_sd y) = true) by (apply Z.ltb_lt; lia). rewrite El2. reflexivity.
     - cbn [fwd_scan]. destruct (Z.ltb last (t_sd x)); [reflexivity|].
       destruct (t_act x) as [sh aps com rate crate | sh aps com rate crate sp | aps rate | sh aps | post pre io].
-      + destruct (gez_mul exact sh _) as [b| |]; cbn [bind]; try reflexivity.
+      + destruct (gez_div exact sh _) as [b| |]; cbn [bind]; try reflexivity.
         destruct (gez_add exact (sc_eop s) b) as [eop| |]; cbn [bind]; try reflexivity.
         destruct (gez_add exact _ b) as [na| |]; cbn [bind]; try reflexivity.
         destruct (gez_add exact (sc_acq s) b) as [acq| |]; cbn [bind]; try reflexivity.
         apply IH; exact Hpos.
-      + destruct (gez_mul exact sh _) as [b| |]; cbn [bind]; try reflexivity.
+      + destruct (gez_div exact sh _) as [b| |]; cbn [bind]; try reflexivity.
         destruct (a_sub exact (sc_eop s) b) as [eop| |]; cbn [bind]; try reflexivity.
         destruct (Qcltb eop 0); [reflexivity|].
         destruct (a_sub exact _ b) as [na| |]; cbn [bind]; try reflexivity.
@@ -271,8 +274,8 @@ Section Full.
       + apply IH; exact Hpos.
       + apply IH; exact Hpos.
       + destruct (split_factor exact post pre) as [fa| |]; cbn [bind]; try reflexivity.
-        destruct (pos_div exact _ fa) as [nsa| |] eqn:En; cbn [bind]; try reflexivity.
-        apply IH. apply adj_pos_update; [exact Hpos | eapply pos_div_pos; exact En].
+        destruct (pos_mul exact _ fa) as [nsa| |] eqn:En; cbn [bind]; try reflexivity.
+        apply IH. apply adj_pos_update; [exact Hpos | eapply pos_mul_pos; exact En].
   Qed.
 End Full.
 
